@@ -18,17 +18,17 @@ LEVEL_TEXT = ("Coq theorems (abstract ordered field with conjugation, every leng
               "Loop-IR tie of the Marple routines: arcovar_marple and modcovar_marple are translated from the snapshot source on every run (fail-closed "
               "Python-ast -> IR translator) and the IR programs are evaluated inside Coq at QcC with zero tolerance against the hand model "
               "Model/CovarMarple.v (outcome constructor, every array entry, both variances, the appended variance lists) and, independently of the hand "
-              "model, against the exact least-squares model (coefficients and per-sample minimum; backward predictor too for arcovar_marple); their "
-              "order-0 branches and the argument check of arcovar_marple are theorems about the generated programs (Proofs/LoopIRMarple0.v, "
-              "claimed only while the regenerated text is the one proved about).")
+              "model, against the exact least-squares model (coefficients and per-sample minimum; backward predictor too for arcovar_marple); for "
+              "orders 0 and 1 of both routines (one full pass of the main loops) and for the argument check of arcovar_marple, run = hand model is a "
+              "THEOREM about the generated programs, for all inputs (Proofs/LoopIRMarple0.v, claimed only while the regenerated text is the one proved about).")
 TRUSTED = ["Coq 8.16.1 kernel + vm_compute", "hand-written model coq/Model/Ls.v, coq/Model/Corr.v (tie = correspondence run)", TRUSTED_LINE,
            "scipy.linalg.lstsq is specified (returns a solution of the normal equations), not verified; numpy QR/SVD in the search oracles",
            "Python harness"]
-UNPROVED = ["arcovar_marple / modcovar_marple equal the least-squares solution and e/(N-p), e/(2(N-p)) for orders >= 1: TEST only, not a theorem — (i) the loop-IR "
+UNPROVED = ["arcovar_marple / modcovar_marple equal the least-squares solution and e/(N-p), e/(2(N-p)) for orders >= 1: exact TEST only, not a theorem — (i) the loop-IR "
             "programs regenerated from the source on this run and (ii) the hand model Model/CovarMarple.v are each compared with the exact LS model at zero "
             "tolerance on every generated case (orders 1..4, N <= 14), the IR program is compared with the hand model at zero tolerance, and the "
-            "implementation is compared in the search (tolerance 1e-11*cond^2); proved for the generated programs: order 0 of both routines and the "
-            "assertion order <= len(x) of arcovar_marple (Proofs/LoopIRMarple0.v)"]
+            "implementation is compared in the search (tolerance 1e-11*cond^2); proved for the generated programs (run = hand model, all inputs): orders 0 and 1 of both "
+            "routines and the assertion order <= len(x) of arcovar_marple (Proofs/LoopIRMarple0.v); NOT proved: run = hand model at orders >= 2"]
 ASSUMPTIONS = ["exact arithmetic", "N - p >= p and full column rank where uniqueness / exact recovery is claimed",
                "lstsq returns a solution of the normal equations (always true of a least-squares solver, also when rank-deficient)"]
 RULE = ("exact in Coq: real/complex low-bit dyadic data (noise, 4th-root-of-unity exponentials with and without noise, scaled by 2^k), N=4..16, "
